@@ -28,6 +28,7 @@ def families(rng, torch, b, n, d, codes=None):
     F['zeros'] = torch.zeros(b, n, d)
     F['tiny'] = torch.randn(b, n, d) * 1e-30
     F['small'] = torch.randn(b, n, d) * 1e-12
+    F['subnormal'] = torch.randn(b, n, d) * 1e-40          # every entry a float32 subnormal (or zero): finite, legal, max |x| below 2^-126
     F['huge'] = torch.randn(b, n, d) * 1e4
     F['neg-huge-const'] = torch.full((b, n, d), -1e4)
     F['const'] = torch.full((b, n, d), 0.37)
@@ -164,7 +165,7 @@ def correspond(ctx, scale):
                     x.requires_grad_(True)
                     ev += 1
                     dist[fname] = dist.get(fname, 0) + 1
-                    nt += fname in ('zeros', 'tiny', 'small', 'huge', 'identical-rows', 'equal-to-codes', 'antipodal-to-codes', 'antipodal-to-assigned-code', 'one-hot', 'const', 'neg-huge-const', 'single-token')
+                    nt += fname in ('zeros', 'tiny', 'small', 'subnormal', 'huge', 'identical-rows', 'equal-to-codes', 'antipodal-to-codes', 'antipodal-to-assigned-code', 'one-hot', 'const', 'neg-huge-const', 'single-token')
                     key = f'{m["name"]}:{fname}:train={train}'
                     try:
                         ret = mod(x, **m['kw'])
